@@ -35,7 +35,7 @@ class HarnessError(Exception):
 
 
 class Item(object):
-    __slots__ = ("due", "seq", "node", "fn", "kind", "cancelled", "periodic", "label")
+    __slots__ = ("due", "seq", "node", "fn", "kind", "cancelled", "periodic", "label", "ctx")
 
     def __init__(self, due, seq, node, fn, kind, label=""):
         self.due = due
@@ -46,6 +46,7 @@ class Item(object):
         self.cancelled = False
         self.periodic = False
         self.label = label
+        self.ctx = None
 
     def cancel(self):
         self.cancelled = True
@@ -86,6 +87,7 @@ class Sim(object):
         self.pct_prio = {}
         self.pct_changes = set()
         self.order_hash = hashlib.sha256()
+        self.ctx_tag = None
         from lsfsim.broker import Broker
         self.broker = Broker(self)
         Sim.current = self
@@ -110,6 +112,7 @@ class Sim(object):
         if delay < 0:
             delay = 0
         it = Item(self.now + delay, self.next_seq(), node, fn, kind, label)
+        it.ctx = self.ctx_tag
         heapq.heappush(self.items, it)
         return it
 
@@ -195,6 +198,12 @@ class Sim(object):
             cands.append((due, seq, ("queue", qname), None))
         return cands
 
+    def _nonperiodic(self, cands):
+        for c in cands:
+            if c[2][0] != "item" or not c[3].periodic:
+                return True
+        return False
+
     def pending_nonperiodic(self):
         for it in self.items:
             if not it.cancelled and not it.periodic:
@@ -248,9 +257,10 @@ class Sim(object):
         # group timers together by node; queues and loops individually
         return key if key[0] != "item" else ("item",)
 
-    def step(self):
+    def step(self, cands=None):
         """Run one event. Returns False when nothing at all is pending."""
-        cands = self._candidates()
+        if cands is None:
+            cands = self._candidates()
         if not cands:
             return False
         cands.sort(key=lambda c: (c[0], c[1]))
@@ -289,6 +299,18 @@ class Sim(object):
             pass
         except SimStop:
             pass
+        except Exception as e:  # what the hosting event loop would do: log it and carry on
+            n = self.nodes.get(node)
+            if n is None and not (isinstance(node, str) and node.startswith("client:")):
+                raise
+            import traceback
+            self.errors.append(("callback", node, repr(e), traceback.format_exc()[-1500:]))
+            self.log("CBERR", node, type(e).__name__)
+            self.count("callback_exception")
+            if n is not None and n.transport == "blocking" and not n.dead:
+                # BlockingConnection: the exception leaves start_consuming(), EventDispatcher.start() logs it
+                # and calls sys.exit(1)
+                n.crash("exception-in-callback")
         except SystemExit as e:
             n = self.nodes.get(node)
             self.log("EXIT", node, e.code)
@@ -313,16 +335,16 @@ class Sim(object):
                 raise HarnessError("step cap %d reached at t=%.3f" % (self.max_steps, self.now - self.epoch))
             if stop_when is not None and stop_when():
                 return "stop"
-            if quiesce and not self.pending_nonperiodic():
-                return "quiescent"
             cands = self._candidates()
             if not cands:
                 return "empty"
+            if quiesce and not self._nonperiodic(cands):
+                return "quiescent"
             nxt = min(c[0] for c in cands)
             if nxt > limit:
                 self.now = max(self.now, limit)
                 return "time"
-            self.step()
+            self.step(cands)
 
     def hexdigest(self):
         return self.digest.hexdigest()
